@@ -69,8 +69,12 @@ Init == /\ \E l \in GridLens, r \in RepMaxes, r2 \in RepMaxes, m \in Modes : \E 
 SimStart ==
   /\ phase \in {"idle", "done"} /\ nsim < MaxSim
   /\ rmax' = IF nsim = 0 THEN cfg.repmax ELSE cfg.repmax2
-  /\ nsim' = nsim + 1 /\ runned' = <<>> /\ stored' = <<>> /\ calls' = <<>> /\ tests' = <<>>
+  /\ nsim' = nsim + 1 /\ runned' = <<>> /\ stored' = <<>> /\ tests' = <<>>
   /\ v' = IF Single THEN cfg.mode[2] ELSE 1
+  \* the user's hooks are part of "the documented order": _on_simulate_start, then per combination
+  \* _on_simulate_current_params_start ... iterations ... _on_simulate_current_params_finish, then _on_simulate_finish
+  \* (which a single-variation run does not call); they are logged in `calls` with attempt number 0
+  /\ calls' = << <<0, 0, "simstart">>, <<v', 0, "start">> >>
   /\ phase' = "first" /\ rep' = 0 /\ att' = 0 /\ skips' = 0 /\ merged' = {}
   /\ UNCHANGED cfg
 
@@ -115,8 +119,10 @@ VarEnd ==
   /\ stored' = Append(stored, [v |-> v, merged |-> merged, skips |-> skips, rep |-> rep])
   /\ IF ~Single /\ v < NV
        THEN /\ v' = v + 1 /\ phase' = "first" /\ rep' = 0 /\ att' = 0 /\ skips' = 0 /\ merged' = {}
+            /\ calls' = calls \o << <<v, 0, "finish">>, <<v + 1, 0, "start">> >>
        ELSE /\ phase' = "done" /\ UNCHANGED <<v, rep, att, skips, merged>>
-  /\ UNCHANGED <<cfg, calls, tests, nsim, rmax>>
+            /\ calls' = calls \o (IF Single THEN << <<v, 0, "finish">> >> ELSE << <<v, 0, "finish">>, <<0, 0, "simfinish">> >>)
+  /\ UNCHANGED <<cfg, tests, nsim, rmax>>
 
 Next == SimStart \/ FirstRep \/ Test \/ Body \/ VarEnd
 Spec == Init /\ [][Next]_vars
@@ -138,9 +144,15 @@ Complete == phase = "done" =>
               /\ \A i \in 1..Len(stored) : /\ stored[i].v = (IF Single THEN cfg.mode[2] ELSE i)
                                            /\ runned[i] = Cardinality(stored[i].merged)
 \* calls are grouped by variation, in increasing variation order, attempts numbered 1,2,3...
-CallOrder == \A i \in 1..(Len(calls) - 1) :
-               \/ (calls[i + 1][1] = calls[i][1] /\ calls[i + 1][2] = calls[i][2] + 1)
-               \/ (calls[i + 1][1] = calls[i][1] + 1 /\ calls[i + 1][2] = 1)
+IsIter(c) == c[3] \in {"ok", "skip"}
+Iters == SelectSeq(calls, IsIter)
+CallOrder == \A i \in 1..(Len(Iters) - 1) :
+               \/ (Iters[i + 1][1] = Iters[i][1] /\ Iters[i + 1][2] = Iters[i][2] + 1)
+               \/ (Iters[i + 1][1] = Iters[i][1] + 1 /\ Iters[i + 1][2] = 1)
+\* hooks bracket the iterations of their combination: an iteration of v lies between <<v, 0, "start">> and <<v, 0, "finish">>
+HookOrder == \A i \in 1..Len(calls) : IsIter(calls[i]) =>
+               /\ \E j \in 1..(i - 1) : calls[j] = <<calls[i][1], 0, "start">>
+               /\ \A j \in 1..(i - 1) : calls[j] # <<calls[i][1], 0, "finish">>
 
 (* ------------------------------ emission ------------------------------------------------- *)
 \* one summary per complete simulate() call (deterministic chain)
